@@ -372,7 +372,9 @@ func ParseOTPAuthURL(u *url.URL) (*URLParam, error) {
 	}
 
 	if periodStr := query.Get("period"); periodStr != "" {
-		if p, err := strconv.Atoi(periodStr); err == nil && p >= 0 {
+		// Period is a uint: Atoi would refuse the upper half of its range
+		// where int is 32 bits wide.
+		if p, err := strconv.ParseUint(periodStr, 10, strconv.IntSize); err == nil {
 			param.Period = uint(p)
 		} else {
 			return nil, fmt.Errorf("invalid period value: %s", periodStr)
